@@ -53,7 +53,7 @@ pub fn aware_message(cx: &Cx, md: &SignModel) -> Message<'static> {
             } else {
                 let off = if at_boundary { 0 } else { have as u16 };
                 let n = if cx.chance(1, 10) { gens::chunk_len(cx) } else { 16usize.min(page_len.saturating_sub(if at_boundary { 0 } else { have })).max(1) };
-                Message::SendData(Offset(off), gens::data(cx.bytes(n)))
+                Message::SendData(Offset(off), gens::data(gens::payload(cx, n)))
             }
         }
         State::PixelsReceived => Message::PixelsComplete(a),
@@ -164,7 +164,15 @@ pub fn make_signs(cx: &Cx) -> Vec<(flipdot_core::Address, flipdot_core::PageFlip
     let n = match cx.draw(6) {
         0..=3 => 1,
         4 => 2,
-        _ => 3,
+        _ => {
+            if cx.chance(1, 8) {
+                // a crowded bus
+                cx.probe("bus_with_8_or_more_signs");
+                8 + cx.draw(5) as usize
+            } else {
+                3
+            }
+        }
     };
     let addrs = gens::distinct_addresses(cx, n);
     addrs.into_iter().map(|a| (a, gens::flip_style(cx))).collect()
@@ -216,13 +224,31 @@ impl Scenario for SignNode {
         }
     }
     fn describe(&self) -> &'static str {
-        "1-3 real VirtualSigns on a real VirtualSignBus; traffic = real Sign controllers through the fault-injecting bus (loss, duplication, reordering, damaged chunks/counts/config, foreign master, crash) mixed with a state-aware raw generator over the full message alphabet"
+        "1-3 (one run in 24: 8-12) real VirtualSigns on a real VirtualSignBus; on a crowded bus half of the runs start with every sign put into a receiving state at once; traffic = real Sign controllers through the fault-injecting bus (loss, duplication, reordering, damaged chunks/counts/config, foreign master, crash) mixed with a state-aware raw generator over the full message alphabet"
     }
 
     fn run(&self, cx: &Cx) -> Result<(), Violation> {
         let signs = make_signs(cx);
         let prop = self.property();
         let world = World::new(cx, prop, OnPanic::Fail, &signs, self.mode == Mode::Refinement);
+        if signs.len() >= 8 && cx.chance(1, 2) {
+            // a controller that sets a crowded bus up in one go: every sign is asked to receive, then the
+            // unaddressed data goes out once for all of them (data frames carry no address, so this works)
+            cx.probe("all_signs_receiving_at_once");
+            let addrs = world.lock().addrs.clone();
+            let block = gens::sign_type(cx).to_bytes().to_vec();
+            for a in &addrs {
+                deliver_probed(cx, &world, &Message::RequestOperation(*a, Operation::ReceiveConfig));
+            }
+            deliver_probed(cx, &world, &Message::SendData(Offset(0), gens::data(block)));
+            deliver_probed(cx, &world, &Message::DataChunksSent(flipdot_core::ChunkCount(1)));
+            for a in &addrs {
+                deliver_probed(cx, &world, &Message::RequestOperation(*a, Operation::ReceivePixels));
+            }
+            for k in 0..cx.draw(8) {
+                deliver_probed(cx, &world, &Message::SendData(Offset(16 * k as u16), gens::data(gens::payload(cx, 16))));
+            }
+        }
         let segments = 1 + cx.draw(6);
         for _ in 0..segments {
             if cx.failed() || world.lock().dead {
